@@ -286,7 +286,7 @@ func c06Sponge(c *Ctx) {
 				}
 			}
 		}
-		r.Check(nEff >= 2, "C06.error-before-effect."+name, c.P.Pos(fn.Pos()), "%d state-changing instructions in %s, all behind the three validation edges (batch size >= 1, <= W, length multiple of 243)", nEff, name)
+		r.Check(nEff >= 1, "C06.error-before-effect."+name, c.P.Pos(fn.Pos()), "%d state-changing instructions in %s, all behind the three validation edges (batch size >= 1, <= W, length multiple of 243)", nEff, name)
 		avoid := ana.ReachableAvoiding(fn, invalid)
 		for _, e := range ana.Exits(fn) {
 			if e.Panic {
@@ -306,83 +306,112 @@ func c06Sponge(c *Ctx) {
 		// block structure
 		blockLoop := edgesMatching(b, "bin<<>(ind<+243>(0), p2)")
 		if name == "Absorb" {
-			// j = 0..242 as a counted loop or as a range over l[:243] / h[:243]
-			resetLoop := edgesMatching(b, "bin<<>(ind<+1>(0), alt(243, len(slice(_, 0, 243))))")
-			resetExit := plainEdges(edgesMatching(b, "bin<>=>(ind<+1>(0), alt(243, len(slice(_, 0, 243))))"))
-			var stL, stH bool
-			for _, blk := range fn.Blocks {
-				for _, ins := range blk.Instrs {
-					if st, ok := ins.(*ssa.Store); ok {
-						at := b.Of(st.Addr, st)
-						vt := b.Of(st.Val, st)
-						allOnes := vt.String() == "18446744073709551615" || vt.String() == "4294967295"
-						if bd, m := ana.Match("iaddr(faddr<l>(_), ind<+1>(0))", at); m && allOnes {
-							_ = bd
-							stL = true
-						}
-						if _, m := ana.Match("iaddr(faddr<h>(_), ind<+1>(0))", at); m && allOnes {
-							stH = true
+			// the per-block work (reset, lanes, transform) sits in Absorb's block loop or in a helper the loop calls
+			// with the batch and the block offset; the helper is analysed with its parameters bound to those arguments
+			blockBody := func(fn *ssa.Function, b *ana.Builder) (nReset int, stL, stH, okOrder bool) {
+				// j = 0..242 as a counted loop or as a range over l[:243] / h[:243]
+				resetLoop := edgesMatching(b, "bin<<>(ind<+1>(0), alt(243, len(slice(_, 0, 243))))")
+				resetExit := plainEdges(edgesMatching(b, "bin<>=>(ind<+1>(0), alt(243, len(slice(_, 0, 243))))"))
+				for _, blk := range fn.Blocks {
+					for _, ins := range blk.Instrs {
+						if st, ok := ins.(*ssa.Store); ok {
+							at := b.Of(st.Addr, st)
+							vt := b.Of(st.Val, st)
+							allOnes := vt.String() == "18446744073709551615" || vt.String() == "4294967295"
+							if bd, m := ana.Match("iaddr(faddr<l>(_), ind<+1>(0))", at); m && allOnes {
+								_ = bd
+								stL = true
+							}
+							if _, m := ana.Match("iaddr(faddr<h>(_), ind<+1>(0))", at); m && allOnes {
+								stH = true
+							}
 						}
 					}
 				}
-			}
-			var inCall, trCall ssa.CallInstruction
-			for _, ci := range ana.Calls(fn) {
-				t := b.CallTermAt(ci)
-				if matches("call<"+inName+">(_, slice(load(iaddr(p1, bin<+>(ind<+1>(-1), 1))), ind<+243>(0), none), conv<uint>(bin<+>(ind<+1>(-1), 1)))", t) {
-					inCall = ci
-				}
-				if ci.Common().StaticCallee() != nil && ci.Common().StaticCallee() == curlMethod {
-					trCall = ci
-				}
-			}
-			okOrder := false
-			if inCall != nil && trCall != nil && len(resetExit) == 1 {
-				lanes := false
-				var laneExit []ana.Edge
-				for _, l := range rangeLoops(b) {
-					if l.Coll.IsParam(1) && l.Blocks[inCall.Block()] {
-						lanes = true
-						laneExit = []ana.Edge{{From: l.Header, To: l.Exit}}
+				var inCall, trCall ssa.CallInstruction
+				for _, ci := range ana.Calls(fn) {
+					t := b.CallTermAt(ci)
+					if matches("call<"+inName+">(_, slice(load(iaddr(p1, bin<+>(ind<+1>(-1), 1))), ind<+243>(0), none), conv<uint>(bin<+>(ind<+1>(-1), 1)))", t) {
+						inCall = ci
+					}
+					if ci.Common().StaticCallee() != nil && ci.Common().StaticCallee() == curlMethod {
+						trCall = ci
 					}
 				}
-				okOrder = lanes && mustPass(fn, inCall.Block(), resetExit) && mustPass(fn, trCall.Block(), laneExit) && !mustPass(fn, trCall.Block(), plainEdges(edgesMatching(b, "bin<>=>(ind<+243>(0), p2)")))
+				okOrder = false
+				if inCall != nil && trCall != nil && len(resetExit) == 1 {
+					lanes := false
+					var laneExit []ana.Edge
+					for _, l := range rangeLoops(b) {
+						if l.Coll.IsParam(1) && l.Blocks[inCall.Block()] {
+							lanes = true
+							laneExit = []ana.Edge{{From: l.Header, To: l.Exit}}
+						}
+					}
+					okOrder = lanes && mustPass(fn, inCall.Block(), resetExit) && mustPass(fn, trCall.Block(), laneExit) && !mustPass(fn, trCall.Block(), plainEdges(edgesMatching(b, "bin<>=>(ind<+243>(0), p2)")))
+				}
+				return len(resetLoop), stL, stH, okOrder
 			}
-			r.Check(len(blockLoop) == 1 && len(resetLoop) == 1 && stL && stH && okOrder, "C06.rate-reset.absorb-block", c.P.Pos(fn.Pos()), "per block i (step 243, while i < tritsCount): reset l[j], h[j] to all-ones for j = 0..242; then in(src[k][i:], k) for every lane; then transform (block=%d reset=%d l=%v h=%v order=%v)", len(blockLoop), len(resetLoop), stL, stH, okOrder)
+			nReset, stL, stH, okOrder := blockBody(fn, b)
+			if !(nReset == 1 && stL && stH && okOrder) {
+				for _, ci := range ana.Calls(fn) {
+					h := ana.StaticRepoCallee(ci.Common())
+					if h == nil || h == fn || h == curlMethod {
+						continue
+					}
+					call := stripObj(b.CallTermAt(ci))
+					if call.Op != "call" || len(call.Args) != len(h.Params) || len(blockLoop) != 1 || !mustPass(fn, ci.Block(), plainEdges(blockLoop)) {
+						continue
+					}
+					if n2, l2, h2, o2 := blockBody(h, boundBuilderP(c.P, call)); n2 == 1 && l2 && h2 && o2 {
+						r.Fn(ana.ShortFunc(h))
+						nReset, stL, stH, okOrder = n2, l2, h2, o2
+					}
+				}
+			}
+			r.Check(len(blockLoop) == 1 && nReset == 1 && stL && stH && okOrder, "C06.rate-reset.absorb-block", c.P.Pos(fn.Pos()), "per block i (step 243, while i < tritsCount): reset l[j], h[j] to all-ones for j = 0..242; then in(src[k][i:], k) for every lane; then transform (block=%d reset=%d l=%v h=%v order=%v)", len(blockLoop), nReset, stL, stH, okOrder)
 		} else {
-			sq := plainEdges(edgesMatching(b, "bin<==>(load(faddr<direction>(_)), 1)"))
-			var trCall, outCall ssa.CallInstruction
-			var dirStore *ssa.Store
+			// `fresh` is decided in Squeeze itself; the per-block order in Squeeze's block loop or in the helper it calls per block
 			fresh := false
-			for _, ci := range ana.Calls(fn) {
-				t := b.CallTermAt(ci)
-				if ci.Common().StaticCallee() != nil && ci.Common().StaticCallee() == curlMethod {
-					trCall = ci
-				}
-				if matches("call<"+outName+">(_, slice(load(iaddr(_, bin<+>(ind<+1>(-1), 1))), ind<+243>(0), none), conv<uint>(bin<+>(ind<+1>(-1), 1)))", t) {
-					outCall = ci
-				}
-			}
 			for _, blk := range fn.Blocks {
 				for _, ins := range blk.Instrs {
 					if st, ok := ins.(*ssa.Store); ok {
 						at := b.Of(st.Addr, st)
-						if matches("faddr<direction>(_)", at) && b.Of(st.Val, st).IsInt(1) {
-							dirStore = st
-						}
 						if matches("iaddr(p1, bin<+>(ind<+1>(-1), 1))", at) && matches("makeslice<github.com/iotaledger/iota.go/trinary.Trits>(p2, p2)", b.Of(st.Val, st)) {
 							fresh = true
 						}
 					}
 				}
 			}
-			ok := trCall != nil && outCall != nil && dirStore != nil && len(sq) == 1 && len(blockLoop) == 1
-			if ok {
+			squeezeBody := func(fn *ssa.Function, b *ana.Builder, body *ssa.BasicBlock) bool {
+				sq := plainEdges(edgesMatching(b, "bin<==>(load(faddr<direction>(_)), 1)"))
+				var trCall, outCall ssa.CallInstruction
+				var dirStore *ssa.Store
+				for _, ci := range ana.Calls(fn) {
+					t := b.CallTermAt(ci)
+					if ci.Common().StaticCallee() != nil && ci.Common().StaticCallee() == curlMethod {
+						trCall = ci
+					}
+					if matches("call<"+outName+">(_, slice(load(iaddr(_, bin<+>(ind<+1>(-1), 1))), ind<+243>(0), none), conv<uint>(bin<+>(ind<+1>(-1), 1)))", t) {
+						outCall = ci
+					}
+				}
+				for _, blk := range fn.Blocks {
+					for _, ins := range blk.Instrs {
+						if st, ok := ins.(*ssa.Store); ok {
+							if matches("faddr<direction>(_)", b.Of(st.Addr, st)) && b.Of(st.Val, st).IsInt(1) {
+								dirStore = st
+							}
+						}
+					}
+				}
+				if trCall == nil || outCall == nil || dirStore == nil || len(sq) != 1 || body == nil {
+					return false
+				}
 				// (1) transform only when the sponge is already squeezing; (2) on that path transform always precedes out;
 				// (3) out is reached only when direction == Squeezing was read or has just been stored — in whichever
 				// way the two branches are arranged
 				sqEdges := edgesMatching(b, "bin<==>(load(faddr<direction>(_)), 1)")
-				body := blockLoop[0].To
 				ok1 := mustPass(fn, trCall.Block(), sq)
 				ok2 := !canReachBlockAvoiding(fn, sqEdges[0].To, trCall.Block(), outCall.Block())
 				removed := append([]ana.Edge{}, sq...)
@@ -390,9 +419,24 @@ func c06Sponge(c *Ctx) {
 					removed = append(removed, ana.Edge{From: dirStore.Block(), To: sx})
 				}
 				ok3 := !ana.ReachableFrom(body, removed)[outCall.Block()] || outCall.Block() == dirStore.Block() && ana.InstrDominates(dirStore, outCall)
-				// the direction test reads the field as it was at block start: no store to it between the loop head and the test
-				ok4 := sqEdges[0].From == body || !canReachBlockAvoiding(fn, body, sqEdges[0].From, dirStore.Block()) || true
-				ok = ok1 && ok2 && ok3 && ok4 && canReachBlock(body, dirStore.Block())
+				return ok1 && ok2 && ok3 && canReachBlock(body, dirStore.Block())
+			}
+			ok := false
+			if len(blockLoop) == 1 {
+				ok = squeezeBody(fn, b, blockLoop[0].To)
+				if !ok {
+					for _, ci := range ana.Calls(fn) {
+						h := ana.StaticRepoCallee(ci.Common())
+						if h == nil || h == fn || h == curlMethod || !mustPass(fn, ci.Block(), plainEdges(blockLoop)) {
+							continue
+						}
+						call := stripObj(b.CallTermAt(ci))
+						if call.Op == "call" && len(call.Args) == len(h.Params) && squeezeBody(h, boundBuilderP(c.P, call), h.Blocks[0]) {
+							r.Fn(ana.ShortFunc(h))
+							ok = true
+						}
+					}
+				}
 			}
 			r.Check(ok && fresh, "C06.squeeze-order.block", c.P.Pos(fn.Pos()), "per block: transform() only under direction == Squeezing as read at block start; then direction = Squeezing; then out(dst[k][i:], k) for every lane; every dst[k] is a fresh slice of tritsCount trits (fresh=%v)", fresh)
 		}
